@@ -6,7 +6,8 @@ from c01 import TRUSTED
 PATH = "example.com/foo"
 OTHER = "example.com/qux"
 # patch-side forms of an import of PATH: (label, name) ; name None = unnamed, "$n" = identifier metavariable
-PFORMS = [("absent", "absent"), ("unnamed", None), ("named-base", "foo"), ("named-other", "bar"), ("metavar", "$n"), ("dot", "."), ("blank", "_")]
+PFORMS = [("absent", "absent"), ("unnamed", None), ("named-base", "foo"), ("named-other", "bar"), ("metavar", "$n"), ("dot", "."), ("blank", "_"),
+          ("expression-metavar", "$bar")]     # 'var bar expression': not an identifier metavariable, so the name is literal
 # file-side: list of names under which PATH is imported
 FFORMS = [("absent", []), ("unnamed", [None]), ("named-base", ["foo"]), ("named-bar", ["bar"]), ("named-baz", ["baz"]), ("dot", ["."]), ("blank", ["_"]),
           ("unnamed+bar", [None, "bar"]), ("bar+unnamed", ["bar", None]), ("baz+bar", ["baz", "bar"]), ("blank+unnamed", ["_", None]),
@@ -24,6 +25,10 @@ def ref_import(pname, fnames):
         return None in fnames
     if pname == "$n":
         return len(fnames) > 0
+    if pname == "$bar":
+        # not in the property's table: an expression metavariable stands for any expression, an import's name included,
+        # but it is not "an identifier metavariable" (which also matches no name at all): any NAMED import of the path
+        return any(n is not None for n in fnames)
     return pname in fnames
 
 
@@ -33,14 +38,16 @@ def spec(name, path):
 
 def make_patch(ppkg, pform, second, on_minus, code):
     lines = ["@@", "var x expression", "var n identifier", "@@"] if pform == "$n" or second == "$n" else ["@@", "var x expression", "@@"]
+    if pform == "$bar" or second == "$bar":
+        lines.insert(2, "var bar expression")
     mark = "-" if on_minus else " "
     if ppkg:
         lines += [" package %s" % ppkg, ""]
     imps = []
     if pform != "absent":
-        imps.append(spec(None if pform is None else ("n" if pform == "$n" else pform), PATH))
+        imps.append(spec(None if pform is None else ("n" if pform == "$n" else "bar" if pform == "$bar" else pform), PATH))
     if second != "absent":
-        imps.append(spec(None if second is None else ("n" if second == "$n" else second), OTHER))
+        imps.append(spec(None if second is None else ("n" if second == "$n" else "bar" if second == "$bar" else second), OTHER))
     for i in imps:
         lines.append("%simport %s" % (mark, i))
     if imps and on_minus:
